@@ -1642,6 +1642,10 @@ func c16Corpus() []any {
 				Faults: []c16Fault{{Pos: lay.starts[1] + 3, Val: 2}}})
 		}
 	}
+	// merged fetch of a height that no block of the bundle reaches, and of heights whose bundle does not exist (fixed: both
+	// used to wait for the next bundle for ever)
+	out = append(out, c16Input{Kind: "merged", Blocks: []c16Blk{mk(1, "01aa", "00aa", 0, "t/T", []byte{1}), mk(2, "02aa", "01aa", 0, "t/T", []byte{2}), mk(4, "04aa", "02aa", 0, "t/T", []byte{4})},
+		Queries: []c16Query{{Num: 3}, {Num: 4}, {Num: 60}, {Num: 99}, {Num: 100}, {Num: 150}, {Num: 1 << 40}}})
 	// known finding C16-merged-fetch-block0-hangs: block 0 is the last block of the merged store
 	out = append(out, c16Input{Kind: "merged", Blocks: []c16Blk{mk(0, "00aa", "", 0, "t/T", []byte{1})}, Queries: []c16Query{{Num: 0}}})
 	// known finding C16-stream-start-corruption-alters: a payload that itself contains a framed
